@@ -134,3 +134,30 @@ V("c18-traverse-no-nibbles", "C18", HX, "        trie_key = Nibbles(trie_key_inp
 V("c18-refcount-guard-gone", "C18", HX, "            else:\n                raise ValueError(\n                    \"Cannot pass an existing reference count in to a non-pruning trie\"\n                )", "            else:\n                self._ref_count = None", rule="VAL3")
 V("c18-pending-reset-only-on-missing", "C18", HX, "        finally:\n            # Reset for next set/delete\n            self._pending_prune_keys = None",
   "        except MissingTrieNode:\n            self._pending_prune_keys = None\n            raise\n        else:\n            self._pending_prune_keys = None", expect="fire", rule="ORD3", props=["C07"])
+
+# --- C10 ------------------------------------------------------------------------------
+V("c10-suffix-ge", "C10", IT, "        if node.suffix > key:", "        if node.suffix >= key:", rule="REL1")
+V("c10-skip-ge", "C10", IT, "            if key[: len(next_segment)] > next_segment:", "            if key[: len(next_segment)] >= next_segment:", rule="REL1")
+V("c10-silent-skip-flipped", "C10", IT, "            if key[: len(next_segment)] > next_segment:", "            if next_segment < key[: len(next_segment)]:", expect="silent")
+V("c10-silent-leaf-negated", "C10", IT, "        if node.suffix > key:\n            # This leaf node is to the right of the target key\n            return traversed + node.suffix\n        else:\n            # Nothing found in any sub-segments\n            return None",
+  "        if not (node.suffix <= key):\n            return traversed + node.suffix\n        return None", expect="silent")
+V("c10-last-segment", "C10", IT, "            next_segment = node.sub_segments[0]\n            next_node = self._trie.traverse_from(node, next_segment)\n            return self._get_next_key", "            next_segment = node.sub_segments[-1]\n            next_node = self._trie.traverse_from(node, next_segment)\n            return self._get_next_key", rule="ITER1")
+V("c10-reversed-segments", "C10", IT, "        for next_segment in node.sub_segments:", "        for next_segment in reversed(node.sub_segments):", rule="ITER1")
+V("c10-nearest-unknown", "C10", IT, "nearest_prefix = next_fog.nearest_right(())", "nearest_prefix = next_fog.nearest_unknown(())", rule="ITER1")
+V("c10-descend-before-value", "C10", IT, "        if node.value:\n            # This is either a leaf node, or a branch node with a value.\n            # The value in a branch node comes before all the child values\n            return traversed + node.suffix\n        elif len(node.sub_segments) == 0:",
+  "        if node.value and len(node.sub_segments) == 0:\n            return traversed + node.suffix\n        elif len(node.sub_segments) == 0:", rule="ITER1")
+V("c10-values-leaf-only", "C10", IT, "        for _, node in self.nodes():\n            if node.value:\n                yield node.value", "        for _, node in self.nodes():\n            if node.value and not node.sub_segments:\n                yield node.value", rule="SIB3")
+V("c10-key-without-suffix", "C10", IT, "                full_key = prefix + node.suffix\n", "                full_key = prefix\n", rule="SIB3")
+V("c10-cache-wrong-segment", "C10", FG, "            self._cache[new_prefix] = (trie_node, Nibbles(segment))", "            self._cache[new_prefix] = (trie_node, Nibbles(sub_segments[0]))", rule="PROV5")
+V("c10-traversed-not-extended", "C10", IT, "                    return self._get_next_key(next_node, traversed + next_segment)", "                    return self._get_next_key(next_node, traversed)", rule="ABS4")
+# --- C11 ------------------------------------------------------------------------------
+V("c11-explore-no-copy", "C11", FG, "        new_fog_prefixes = self._unexplored_prefixes.copy()", "        new_fog_prefixes = self._unexplored_prefixes", rule="AL1")
+V("c11-mark-no-copy", "C11", FG, "        new_unexplored_prefixes = self._unexplored_prefixes.copy()", "        new_unexplored_prefixes = self._unexplored_prefixes", rule="AL1")
+V("c11-mark-inplace-sub", "C11", FG, "        new_unexplored_prefixes = self._unexplored_prefixes.copy()\n        for prefix in map(Nibbles, prefix_inputs):", "        new_unexplored_prefixes = self._unexplored_prefixes\n        for prefix in map(Nibbles, prefix_inputs):\n            new_unexplored_prefixes -= {prefix}", rule="AL1")
+V("c11-nearest-right-returns-key", "C11", FG, "            if key_starts_with(key, nearest_left):\n                return nearest_left", "            if key_starts_with(key, nearest_left):\n                return key", rule="PROV1")
+V("c11-perfect-vis-at-end", "C11", FG, "        elif index == len(self._unexplored_prefixes):\n            return self._unexplored_prefixes[-1]", "        elif index == len(self._unexplored_prefixes):\n            raise PerfectVisibility(\"nothing to the right\")", rule="EXC7")
+V("c11-update-filtered", "C11", FG, "new_fog_prefixes.update([old_prefix + segment for segment in sub_segments])", "new_fog_prefixes.update([old_prefix + segment for segment in sub_segments if segment])", rule="PROV6")
+V("c11-prefix-literal-differs", "C11", FG, "        serial_prefix = b\"HexaryTrieFog:\"", "        serial_prefix = b\"HexaryTrieFog=\"", rule="SIB10")
+V("c11-nested-only-shortest", "C11", FG, "                shorter_lengths = [\n                    length for length in all_lengths if length < len(segment)\n                ]", "                shorter_lengths = [min(all_lengths)] if min(all_lengths) < len(segment) else []", rule="PROV6")
+V("c11-silent-copy-via-sortedset", "C11", FG, "        new_fog_prefixes = self._unexplored_prefixes.copy()", "        new_fog_prefixes = SortedSet(self._unexplored_prefixes)", expect="silent")
+V("c11-is-complete-wrong", "C11", FG, "        return len(self._unexplored_prefixes) == 0", "        return len(self._unexplored_prefixes) <= 1", rule="PROV1")
